@@ -185,6 +185,9 @@ class FixedMarginBusiness(Sector):
         self.OutputName = output_name
         self.AddVariable('SUP_' + output_name, 'Supply of goods', '')
         self.AddVariable('PROF', 'Profits', 'SUP_GOOD - DEM_' + labour_input_name)
+        # Declared here (and only defined in _GenerateEquations) so that the labour market finds
+        # this demand whatever the order in which sectors were created.
+        self.AddVariable('DEM_' + labour_input_name, 'Demand for labour', '')
 
     def _GenerateEquations(self):
         # self.AddVariable('SUP_GOOD', 'Supply of goods', '<TO BE DETERMINED>')
@@ -196,11 +199,11 @@ class FixedMarginBusiness(Sector):
         except KeyError:
             raise Warning('Business {0} Cannot Find Market for {1}'.format(self.Code, self.OutputName))
         if self.ProfitMargin == 0:
-            self.AddVariable('DEM_' + self.LabourInputName, 'Demand for labour', market_sup_good)
+            self.SetEquationRightHandSide('DEM_' + self.LabourInputName, market_sup_good)
             # self.Equations['PROF'] = ''
         else:
-            self.AddVariable('DEM_' + self.LabourInputName, 'Demand for labour',
-                             '%0.3f * %s' % (wage_share, market_sup_good))
+            self.SetEquationRightHandSide('DEM_' + self.LabourInputName,
+                                          '%0.3f * %s' % (wage_share, market_sup_good))
             self.SetEquationRightHandSide('PROF', '%0.3f * %s' % (self.ProfitMargin, market_sup_good))
         for s in self.Parent.SectorList:
             if isinstance(s, FixedMarginBusiness):
